@@ -63,6 +63,10 @@ structure Cfg where
   /-- `Console(record=True)` -/
   record : Bool
   transient : Bool
+  /-- CODE VARIANT FLAG.  `true` = today's `Progress.stop`: the transient erase (`restore_cursor`) and
+  `_live_render._shape = None` run after the progress lock is released, so another thread's `start()` can slip in
+  between.  `false` = repaired: both happen before the lock is released (as in `Live.stop`). -/
+  stopTailUnlocked : Bool := true
 deriving Repr, DecidableEq
 
 /-- The part of the configuration the frame functions of `Model/Live` look at. -/
@@ -230,8 +234,10 @@ def stopCode (cfg : Cfg) : List GAct :=
       ++ ctlCode [.lf] false ++ [ga .popHook] ++ ctlCode [.showCursor] true
       ++ (if cfg.transient then ga .restorePush :: flushCode else []) ++ [ga .resetShape, ga (.rel .live)]
   | .progress => [ga (.acq .live), ga (.guardStarted true), ga (.setStarted false)] ++ refreshCode .progress
-      ++ ctlCode [.lf] false ++ ctlCode [.showCursor] true ++ [ga .popHook, ga (.rel .live)]
-      ++ (if cfg.transient then ga .restorePush :: flushCode else []) ++ [ga .resetShape]
+      ++ ctlCode [.lf] false ++ ctlCode [.showCursor] true ++ [ga .popHook]
+      ++ (if cfg.stopTailUnlocked then
+            [ga (.rel .live)] ++ (if cfg.transient then ga .restorePush :: flushCode else []) ++ [ga .resetShape]
+          else (if cfg.transient then ga .restorePush :: flushCode else []) ++ [ga .resetShape, ga (.rel .live)])
   | .none => []
 
 /-- The static code of an operation (`[]`: the operation does not exist for this kind of display). -/
